@@ -49,8 +49,11 @@ class HSet:
         return HSet(self.arr)
 
 
+M0 = z3.Const("M@entry", TSet)
+
+
 def init_ghost(x, st):
-    st.ghost["M"] = V("zarr", z3.Const("M@entry", TSet))
+    st.ghost["M"] = V("zarr", M0)
 
 
 def make_abstract_local(x, st, kind):
@@ -223,7 +226,7 @@ def call_abstract(x, st, handler, pos, kw, node):
 
 # ------------------------------------------------------------------ clause builtins
 
-CLAUSE_BUILTINS = {"children_well_formed", "ends_with_node_or_empty", "processed_n", "forall_t", "forall_n", "imp", "all_of", "any_of", "marked", "is_template", "member",
+CLAUSE_BUILTINS = {"was_marked", "children_well_formed", "ends_with_node_or_empty", "processed_n", "forall_t", "forall_n", "imp", "all_of", "any_of", "marked", "is_template", "member",
                    "related", "uses", "flag", "key", "in_S", "processed", "same", "neg"}
 
 
@@ -243,6 +246,8 @@ def clause_builtin(x, st, name, pos, kw, node, chain):
         return [(st, vbool(z3.And(*[x.truth_st(p, st) for p in pos])))]
     if name == "any_of":
         return [(st, vbool(z3.Or(*[x.truth_st(p, st) for p in pos])))]
+    if name == "was_marked":          # marked before the analysis started (ghost field at entry)
+        return [(st, vbool(z3.Select(M0, tt(pos[0]))))]
     if name == "marked":
         return [(st, vbool(z3.Select(st.ghost["M"].t, tt(pos[0]))))]
     if name == "is_template":
